@@ -132,8 +132,16 @@ func c19Extra(t Tier, ev *Evidence) []Violation {
 		wantNund := all.String() + "nund"
 		q, r := new(big.Int).QuoRem(all, e9, new(big.Int))
 		wantFund := fmt.Sprintf("%s.%09d", q.String(), r.Int64()) + "fund"
-		for _, trim := range []bool{true, false} {
-			in := digitsToFund(d, trim)
+		// the same number in every spelling a user may type: trimmed, with all nine fractional digits,
+		// with leading zeros, with some (not all) trailing fractional zeros, with a bare ".0"
+		trimmed, full := digitsToFund(d, true), digitsToFund(d, false)
+		spellings := []string{trimmed, full, "0" + trimmed, "000" + full}
+		if i := strings.IndexByte(trimmed, '.'); i < 0 {
+			spellings = append(spellings, trimmed+".0", trimmed+".00000")
+		} else if len(trimmed)-i-1 < fracPos-1 {
+			spellings = append(spellings, trimmed+"0")
+		}
+		for _, in := range spellings {
 			evals++
 			got, perr := call(in, "fund", "nund")
 			if perr != "" {
@@ -179,7 +187,7 @@ func c19Extra(t Tier, ev *Evidence) []Violation {
 	ev.Coverage["distinct_nontrivial"] = distinct
 	ev.Coverage["outcomes"] = hist
 	ev.Coverage["exhaustive"] = true
-	ev.Coverage["rule"] = "complete grid of decimal amounts with 21 integer and 9 fractional digit positions: every placement of one or two non-zero digits (all digit values), every placement of three non-zero digits from {1,5,9}, 10^k plus one unit in the last place, all-nines of every length, a fixed digit pattern for every (integer digits 1..21, fractional digits 0..9) pair; each converted FUND->nund (trimmed and 9-digit form), integral nund->FUND, and both round trips, against math/big; distinct = distinct digit patterns"
+	ev.Coverage["rule"] = "complete grid of decimal amounts with 21 integer and 9 fractional digit positions: every placement of one or two non-zero digits (all digit values), every placement of three non-zero digits from {1,5,9}, 10^k plus one unit in the last place, all-nines of every length, a fixed digit pattern for every (integer digits 1..21, fractional digits 0..9) pair; each converted FUND->nund (in every spelling: trimmed, 9-digit form, leading zeros, partial trailing zeros, bare .0), integral nund->FUND, and both round trips, against math/big; distinct = distinct digit patterns"
 	ev.Coverage["samples"] = samples
 	_ = t0
 	return viols
